@@ -5,6 +5,7 @@ import (
 	"errors"
 	"fmt"
 	"io"
+	"runtime"
 	"strings"
 	"sync"
 	"sync/atomic"
@@ -124,6 +125,8 @@ func runC06(c *core.Ctx) {
 	})
 	c.CasesPar("conn", c.N(3000, 200000), 4, func(k *core.Case) { c06Conn(k) })
 	c.CasesPar("transport", c.N(2400, 150000), 4, func(k *core.Case) { c06Transport(k) })
+	// one at a time: the bursts need the processors of the shard
+	c.Cases("burst", c.N(64, 1600), func(k *core.Case) { c06Burst(k) })
 }
 
 type c06Call struct {
@@ -485,4 +488,69 @@ func c06Transport(k *core.Case) {
 	if k.Idx < 4 {
 		c.Sample(map[string]any{"path": "transport", "mode": mode, "goroutines": g, "calls": len(calls), "failed": nerr, "abandoned": ncancel, "connections": len(env.Net.Conns()), "overlapping_pairs": ov})
 	}
+}
+
+// c06Burst: rounds of 4 calls released on one Conn at the same instant by a spin barrier (windows of a
+// few nanoseconds around the choice of the correlation id need truly simultaneous arrivals), answered in
+// shuffled order. Every call asks for the offset of a timestamp only it uses.
+func c06Burst(k *core.Case) {
+	c := k.Ctx
+	r := k.R
+	env := newConnEnv(map[int]int{})
+	defer env.Cluster.Close()
+	env.Cluster.Script = c06Script(env.Cluster, r, "reorder", 0)
+	cn, err := env.dial()
+	if err != nil {
+		c.Inconclusive("dial: " + err.Error())
+		return
+	}
+	defer cn.Close()
+	// the spinning callers need a processor each (shards normally run with two)
+	defer runtime.GOMAXPROCS(runtime.GOMAXPROCS(8))
+	rounds, g := 300, 4
+	k.Describe(map[string]any{"path": "conn-burst", "rounds": rounds, "goroutines": g})
+	mismatches, failures := 0, 0
+	var first string
+	for round := 0; round < rounds; round++ {
+		cn.SetDeadline(time.Now().Add(5 * time.Second))
+		var ready, fire int32
+		var wg sync.WaitGroup
+		var mu sync.Mutex
+		for gi := 0; gi < g; gi++ {
+			wg.Add(1)
+			go func(gi int) {
+				defer wg.Done()
+				T := tsBase + int64(round)*1000 + int64(gi)*7 + 1
+				atomic.AddInt32(&ready, 1)
+				for atomic.LoadInt32(&fire) == 0 {
+				}
+				off, err := cn.ReadOffset(time.UnixMilli(T))
+				mu.Lock()
+				defer mu.Unlock()
+				if err != nil {
+					failures++
+				} else if off != c06h(T) {
+					mismatches++
+					if first == "" {
+						first = fmt.Sprintf("round %d: ReadOffset(%d) returned %d, the answer to this request is %d", round, T, off, c06h(T))
+					}
+				}
+			}(gi)
+		}
+		for atomic.LoadInt32(&ready) < int32(g) {
+			runtime.Gosched()
+		}
+		atomic.StoreInt32(&fire, 1)
+		wg.Wait()
+		if failures > 0 {
+			break // the connection is gone (a misdelivery can also surface as a decode error)
+		}
+	}
+	c.Eval(rounds * g)
+	c.Count("burst_calls", int64(rounds*g))
+	c.Count("burst_calls_failed", int64(failures))
+	if mismatches > 0 {
+		k.Viol("c06:conn:ReadOffset:burst", fmt.Sprintf("%d calls of simultaneous bursts on one Conn returned the answer to another call; %s", mismatches, first), nil)
+	}
+	c.Distinct("conn-burst")
 }
